@@ -807,3 +807,163 @@ Proof.
       + cbn [length]. lia. }
   rewrite B. reflexivity.
 Qed.
+
+(* ------------------------------------ every flow-reference cycle is rejected *)
+
+(* a connection that makes the builder incorporate flow x:
+   `processor -> flow x at start`  or  `from flow x at end -> processor` *)
+Definition refers (c : conn) (x : Z) : Prop :=
+  refers_to c x
+  \/ ((exists tr, ep_proc (c_to c) = Some tr) /\ ep_proc (c_from c) = None
+      /\ ep_stream (c_from c) = None /\ ep_flow (c_from c) = Some (x, 1)).
+
+(* flow a reaches flow b through references written in direction d *)
+Inductive ref_path (cf : config) (d : dir) : Z -> Z -> Prop :=
+| rp_last : forall a b fa pre c post,
+    find_flow cf a = Some fa -> fc_conns fa d = pre ++ c :: post -> refers c b ->
+    ref_path cf d a b
+| rp_step : forall a m b fa pre c post,
+    find_flow cf a = Some fa -> fc_conns fa d = pre ++ c :: post -> refers c m ->
+    ref_path cf d m b -> ref_path cf d a b.
+
+Definition is_ok (r : bres) : bool := match r with BOk _ => true | _ => false end.
+
+Lemma build_list_not_ok_at : forall step pre c post s,
+  (forall s', is_ok (step c s') = false) ->
+  is_ok (build_list step (pre ++ c :: post) s) = false.
+Proof.
+  intros step pre c post s E. revert s.
+  induction pre as [|p pre IH]; intros s; cbn [app build_list].
+  - specialize (E s). destruct (step c s); [discriminate|reflexivity|reflexivity].
+  - destruct (step p s); [apply IH|reflexivity|reflexivity].
+Qed.
+
+(* a connection that refers to flow x succeeds only if incorporating x does *)
+Lemma refers_conn_not_ok : forall cf top d rec cur stack c x s,
+  refers c x ->
+  (forall st, is_ok (incorporate cf true d rec stack x st) = false) ->
+  is_ok (build_conn cf true top d rec cur stack c s) = false.
+Proof.
+  intros cf top d rec cur stack c x [b foreign] R H. unfold build_conn.
+  destruct R as [[[r FR] [TP [TS TF]]]|[[tr TP] [FP [FS FF]]]].
+  - rewrite FR, TP, TS, TF.
+    destruct (negb (from_cond_ok cf d cur r)); [reflexivity|].
+    cbn iota. change (0 =? 0) with true. cbn iota.
+    destruct (get_or_create cf cur r b) as [[b1 src]|]; [|reflexivity].
+    specialize (H (b1, foreign)).
+    destruct (incorporate cf true d rec stack x (b1, foreign)) as [[b2 [fk|]]| |];
+      [discriminate|reflexivity|reflexivity|reflexivity].
+  - rewrite TP, FP, FS, FF. cbn iota. change (1 =? 1) with true. cbn iota.
+    destruct (get_or_create cf cur tr b) as [[b1 tgt]|]; [|reflexivity].
+    specialize (H (set_root b1 (bn_key tgt), foreign)).
+    destruct (incorporate cf true d rec stack x (set_root b1 (bn_key tgt), foreign)) as [[b2 [fk|]]| |];
+      [discriminate|reflexivity|reflexivity|reflexivity].
+Qed.
+
+Lemma ref_path_not_ok : forall cf top d a,
+  ref_path cf d a top ->
+  forall fuel cur stack s fa, In top stack -> find_flow cf a = Some fa ->
+  is_ok (build_conns cf true top d fuel cur stack (fc_conns fa d) s) = false.
+Proof.
+  intros cf top d a P.
+  induction P as [a b fa pre c post FA E R|a m b fa pre c post FA E R P IH];
+    intros fuel cur stack s fa' IN FA'; rewrite FA' in FA; inversion FA; subst fa';
+    (destruct fuel as [|f]; [reflexivity|]); rewrite build_conns_S, E;
+    apply build_list_not_ok_at; intros s'.
+  - (* the reference goes straight back to a flow in the chain *)
+    eapply refers_conn_not_ok; [exact R|]. intros st. unfold incorporate.
+    destruct (find_flow cf b); [|reflexivity].
+    assert (M : memZ b stack = true) by (apply memZ_true; exact IN).
+    rewrite M. reflexivity.
+  - eapply refers_conn_not_ok; [exact R|]. intros st. unfold incorporate.
+    destruct (find_flow cf m) as [fm|] eqn:FM; [|reflexivity].
+    cbn [andb]. destruct (memZ m stack); [reflexivity|].
+    apply IH; [right; exact IN|reflexivity].
+Qed.
+
+Lemma reference_cycle_rejected : forall cf allstarts fc d,
+  find_flow cf (fc_name fc) = Some fc ->
+  ref_path cf d (fc_name fc) (fc_name fc) ->
+  build_flow cf true allstarts fc = FBad.
+Proof.
+  intros cf allstarts fc d FF P.
+  pose proof (build_flow_no_fuel cf allstarts fc) as NF.
+  assert (NOK : forall s, is_ok (build_conns cf true (fc_name fc) d (build_fuel cf) (fc_name fc)
+                                           [fc_name fc] (fc_conns fc d) s) = false).
+  { intros s. eapply ref_path_not_ok; [exact P|left; reflexivity|exact FF]. }
+  unfold build_flow in *.
+  destruct (build_conns cf true (fc_name fc) Req (build_fuel cf) (fc_name fc) [fc_name fc]
+                        (fc_req fc) (empty_bdir, None)) as [[bq foreign]| |] eqn:BQ;
+    [|reflexivity|contradiction].
+  destruct d.
+  { specialize (NOK (empty_bdir, None)). cbn [fc_conns] in NOK. rewrite BQ in NOK. discriminate. }
+  destruct (build_conns cf true (fc_name fc) Res (build_fuel cf) (fc_name fc) [fc_name fc]
+                        (fc_res fc) (empty_bdir, foreign)) as [[bs fo2]| |] eqn:BS;
+    [|reflexivity|contradiction].
+  specialize (NOK (empty_bdir, foreign)). cbn [fc_conns] in NOK. rewrite BS in NOK. discriminate.
+Qed.
+
+(* ------------------------------------------------ statements as used in Property.v *)
+
+Lemma validated_is_ranked : forall d g,
+  validate d g = true ->
+  ranked g (rank_of g) /\ forall k, (rank_of g k < exec_fuel_of g)%nat.
+Proof.
+  intros d g H. unfold validate in H.
+  destruct (validate_dir true d g) eqn:V; try discriminate.
+  split; [apply all_starts_ranked; eapply validate_dir_all_starts; exact V|apply rank_below_fuel].
+Qed.
+
+Lemma detector_sound : forall d g,
+  validate d g = true ->
+  forall gr d' beh fuel k, (exec_fuel_of g <= fuel)%nat ->
+    snd (exec_impl g gr d' beh fuel k) <> OutOfFuel
+    /\ (length (fst (exec_impl g gr d' beh fuel k)) <= Nat.pow (S (maxdeg g)) fuel)%nat
+    /\ exec_impl g gr d' beh fuel k = exec_impl g gr d' beh (exec_fuel_of g) k.
+Proof.
+  intros d g H gr d' beh fuel k L.
+  destruct (validated_is_ranked d g H) as [R B]. specialize (B k).
+  split; [eapply ranked_not_stuck; [exact R|lia]|].
+  split; [apply exec_length|].
+  eapply ranked_fuel_irrelevant; [exact R|lia|lia].
+Qed.
+
+Lemma flow_safe : forall f fuel,
+  validate Req (freq f) = true -> validate Res (fres f) = true ->
+  (exec_fuel_of (freq f) <= fuel)%nat -> (exec_fuel_of (fres f) <= fuel)%nat ->
+  forall d start beh,
+    snd (exec_flow_impl fuel f d start beh) <> OutOfFuel
+    /\ (length (fst (exec_flow_impl fuel f d start beh)) <= dir_bound fuel (gdir f d))%nat.
+Proof.
+  intros f fuel VQ VS LQ LS d start beh. split; [|apply flow_length].
+  apply flow_not_stuck. unfold validate in *.
+  destruct (validate_dir true Req (freq f)) eqn:A; try discriminate.
+  destruct (validate_dir true Res (fres f)) eqn:B; try discriminate.
+  split; eapply validate_dir_ok; eauto.
+Qed.
+
+Lemma transaction_safe : forall cf fs beh s s2,
+  load cf = Accept fs ->
+  sel_from fs s -> (forall s', s2 = Some s' -> sel_from fs s') ->
+  let fuel := exec_fuel fs in
+  (snd (run_req fuel beh s s2) = None \/ exists k, snd (run_req fuel beh s s2) = Some (NoRespNode k))
+  /\ (length (fst (run_req fuel beh s s2)) <= req_bound fuel s s2)%nat
+  /\ forall sc,
+       (snd (run_res fuel beh s sc) = None \/ exists k, snd (run_res fuel beh s sc) = Some (NoRespNode k))
+       /\ (length (fst (run_res fuel beh s sc)) <= res_bound fuel s)%nat.
+Proof.
+  intros cf fs beh s s2 L S S2 fuel.
+  pose proof (valid_flows_ok fs (load_accept_valid cf fs L)) as OK.
+  assert (SO : sel_ok fuel s) by (eapply sel_from_ok; eauto).
+  assert (SO2 : forall s', s2 = Some s' -> sel_ok fuel s').
+  { intros s' E. eapply sel_from_ok; eauto. }
+  pose proof (run_req_not_stuck fuel beh s s2 SO SO2) as NQ.
+  assert (OUT : forall r : list event * option outcome,
+            (forall o, snd r = Some o -> failed o = true) -> snd r <> Some OutOfFuel ->
+            snd r = None \/ exists k, snd r = Some (NoRespNode k)).
+  { intros r F N. destruct (snd r) as [o|] eqn:E; [|left; reflexivity].
+    specialize (F o eq_refl). destruct o; try discriminate; [right; eauto|contradiction]. }
+  split; [apply OUT; [apply run_req_failed|exact NQ]|].
+  split; [apply run_req_length|].
+  intros sc. split; [apply OUT; [apply run_res_failed|apply run_res_not_stuck; exact SO]|apply run_res_length].
+Qed.
